@@ -42,6 +42,8 @@ def _build(nl: dict, route: dict | None = None):
     Circuit, Gate = core.Circuit, core.Gate
     route = route or {'kind': 'emplace'}
     kind = route['kind']
+    if kind == 'bench' and any(g[0] == '' for g in nl['gates']):
+        kind = 'emplace'  # the empty label cannot be written in bench text
     if kind == 'bench':
         c = Circuit.from_bench_string(bench_text(nl, route.get('keys')))
         return _finish(c, nl, route)
